@@ -1079,4 +1079,4 @@ class Continuation(Note):
 
     def copy(self):
         """ """
-        return Continuation(self.duration, pedal=self.pedal, tags=set(self.tags))
+        return Continuation(self.duration, tempo=self.tempo, pedal=self.pedal, tags=set(self.tags))
